@@ -23,6 +23,7 @@ import (
 	"github.com/olric-data/olric/internal/protocol"
 	"github.com/olric-data/olric/internal/resp"
 	"github.com/olric-data/olric/internal/util"
+	"github.com/olric-data/olric/internal/verifhook"
 	"github.com/olric-data/olric/pkg/storage"
 )
 
@@ -58,6 +59,9 @@ func (dm *DMap) atomicIncrDecr(cmd string, e *env, delta int) (int, error) {
 	current, ttl, err := dm.loadCurrentAtomicInt(e)
 	if err != nil {
 		return 0, err
+	}
+	if verifhook.Enabled {
+		verifhook.Point("atomic.afterRead", dm.s.rt.This().String(), e.key)
 	}
 
 	var updated int
@@ -126,6 +130,9 @@ func (dm *DMap) getPut(e *env) (storage.Entry, error) {
 	if err != nil {
 		return nil, err
 	}
+	if verifhook.Enabled {
+		verifhook.Point("atomic.afterRead", dm.s.rt.This().String(), e.key)
+	}
 	err = dm.put(e)
 	if err != nil {
 		return nil, err
@@ -185,6 +192,9 @@ func (dm *DMap) atomicIncrByFloat(e *env, delta float64) (float64, error) {
 	}
 	if err != nil {
 		return 0, err
+	}
+	if verifhook.Enabled {
+		verifhook.Point("atomic.afterRead", dm.s.rt.This().String(), e.key)
 	}
 
 	if entry != nil {
